@@ -895,6 +895,9 @@ class Interp:
             v = VElem(z3.Const(sym.fresh_name('unknown_local_' + n), sym.Elem))
             fr.locals[n] = v
             return v
+        if not self.spec_mode and not self.segment_mode and n in self.assigned_locals(fr):
+            # a local that is assigned somewhere in the function but not on this path
+            self.raise_('UnboundLocalError')
         raise Unsupported('unknown name %s in %s' % (n, fr.qual))
 
     def assigned_locals(self, fr):
@@ -1292,6 +1295,9 @@ class Interp:
             return VElem(sym.f_add(a.t, self.as_elem(b)))
         if isinstance(op, ast.Mult) and isinstance(a, (VInt,)) and isinstance(b, VInt):
             return VInt(a.t * b.t)
+        h = self.spec_funcs.get('binop_default')
+        if h is not None:
+            return h(self, op, a, b)
         raise Unsupported('binary operator %s on %r, %r' % (type(op).__name__, a, b))
 
     def expr_Lambda(self, e, fr):
@@ -1441,6 +1447,8 @@ class Interp:
                 self.dropped.add('logger.* calls (no-ops that cannot raise)')
                 return NONE
             h = BUILTINS.get(f.name) or self.spec_funcs.get('builtin_' + f.name)
+            if h is None and 'call_default' in self.spec_funcs:
+                return self.spec_funcs['call_default'](self, 'builtin', f.name, None, args, kwargs)
             if h is None:
                 raise Unsupported('builtin %s' % f.name)
             return h(self, args, kwargs, fr)
@@ -1458,6 +1466,8 @@ class Interp:
                 return h(self, None, args, kwargs)
             if f.name in EXC_CLASSES:
                 return VExc(f.name, payload=args)
+            if 'call_default' in self.spec_funcs:
+                return self.spec_funcs['call_default'](self, 'constructor', f.name, None, args, kwargs)
             raise Unsupported('constructor %s' % f.name)
         raise Unsupported('call of %r' % (f,))
 
@@ -1497,6 +1507,9 @@ class Interp:
             return h(self, f.bound, args, kwargs)
         if qual in self.inline or '<locals>' in qual or '<lambda>' in qual:
             return self.run_function(f, args, kwargs)
+        h = self.spec_funcs.get('call_default')
+        if h is not None:
+            return h(self, 'function', qual, f.bound, args, kwargs)
         raise Unsupported('call of %s without a contract (and not marked inline)' % qual)
 
     def bind_args(self, node, bound, args, kwargs, qual):
@@ -1585,6 +1598,8 @@ class Interp:
         if isinstance(recv, VRef):
             key = (recv.cls or '?') + '.' + name
             h = self.summaries.get(key) or self.summaries.get('*.' + name)
+            if h is None and 'call_default' in self.spec_funcs:
+                return self.spec_funcs['call_default'](self, 'method', key, recv, args, kwargs)
             if h is None:
                 raise Unsupported('method %s on symbolic reference' % key)
             return h(self, recv, args, kwargs)
@@ -1852,6 +1867,8 @@ def _b_len(I, args, kwargs, fr):
         if h:
             return h(I, v, [], {})
     t, k = I.seq_term(v)
+    if t is None:
+        return VInt(0)          # a container that has never held anything (untyped empty)
     return VInt(z3.Length(t))
 
 
